@@ -21,7 +21,7 @@ func StdPrograms(tier string) []*Schema {
 		ps = append(ps, ProgMaps(k))
 	}
 	// 2^29-1 in both tiers: field numbers >= 2^28 are the ones whose 5-byte tag does not fit an int32 once shifted
-	ps = append(ps, ProgNested(), ProgWide(), ProgBigID(2048), ProgBigID(262144), ProgBigID(1<<29-1))
+	ps = append(ps, ProgNested(), ProgWide(), ProgSameName(), ProgBigID(2048), ProgBigID(262144), ProgBigID(1<<29-1))
 	if tier == "thorough" {
 		ps = append(ps, ProgBigID(1<<25), ProgBigID(1<<28))
 	}
@@ -101,6 +101,15 @@ func StdMessages(s *Schema, tier string) []NV {
 			}
 		}
 		add("wide-all", all)
+	case s.ID == "samename":
+		order, refund := root.ByName("order"), root.ByName("refund")
+		oi, ri := order.Msg.ByName("item"), refund.Msg.ByName("item")
+		ois, rm := order.Msg.ByName("items"), refund.Msg.ByName("m")
+		ov := MsgVal(order.Msg).Set(oi, ItemVal(oi.Msg, 0)).Set(ois, ListOf(ois, ItemVal(oi.Msg, 1), ItemVal(oi.Msg, 3))).Set(order.Msg.ByName("n"), Int(KInt32, 7))
+		rv := MsgVal(refund.Msg).Set(ri, ItemVal(ri.Msg, 0)).Set(rm, MapOf(rm).Put(Str("k"), ItemVal(ri.Msg, 1)).Put(Str("j"), ItemVal(ri.Msg, 4)))
+		add("order-only", MsgVal(root).Set(order, ov))
+		add("refund-only", MsgVal(root).Set(refund, rv))
+		add("both", MsgVal(root).Set(order, ov).Set(refund, rv))
 	case strings.HasPrefix(s.ID, "bigid"):
 		add("empty", MsgVal(root))
 		all := MsgVal(root)
